@@ -389,8 +389,10 @@ func scenC14(run *vlab.Run, sx, tmp string) {
 // ---------------------------------------------------------------------------
 // c16app: the exit delay of the application scans (real binary, real cobra wiring of --exit-delay and
 // --timeout): the process must not exit earlier than the exit delay after its last probe got its answer.
-// Lower bound only, on safe-side stamps: the server's stamp is taken BEFORE it writes its last answer
-// (<= the moment the probe can finish), the exit is observed after wait() returned (>= the true exit).
+// Lower bound only, on safe-side stamps: the kernel timestamp of the last segment with payload that sx sent
+// to the server (its last request; a probe cannot be finished before it has sent its request) against the
+// exit observed after wait() returned (>= the true exit). A stamp taken by the monitor's server would not do:
+// on a starved machine the server can answer a probe that has long timed out.
 
 func init() { scenarios["c16app"] = scenC16App }
 
@@ -456,17 +458,32 @@ func scenC16App(run *vlab.Run, sx, tmp string) {
 		}
 		args = append(args, fmt.Sprintf("%s/%d", ipS(base), bits))
 		run.Case(fmt.Sprintf("c16app%03d", i), args)
-		res := RunCase(sx, &CaseSpec{Args: args, Setup: loOnly, Timeout: 120 * time.Second})
+		res := RunCase(sx, &CaseSpec{Args: args, Setup: loOnly, Sniff: []string{"lo"}, Timeout: 120 * time.Second})
 		ln.Close()
 		run.Eval(1)
 		if !baseChecks(run, res, args, true) {
 			continue
 		}
+		if res.Drops > 0 {
+			run.Inconclusive("sniffer drops")
+			continue
+		}
 		mu.Lock()
-		l, nc := last, conns
+		nc := conns
+		_ = last
 		mu.Unlock()
-		if nc == 0 {
-			run.Inconclusive("no probe reached the monitor's server")
+		var l time.Time
+		for _, e := range res.Sniffed("lo") {
+			if e.KTS.IsZero() {
+				continue
+			}
+			d := oracle.Decode(e.Data, oracle.LinkEthernet)
+			if d.TCP != nil && int(d.TCP.DstPort) == port && len(d.TCP.Payload) > 0 && e.KTS.After(l) {
+				l = e.KTS
+			}
+		}
+		if l.IsZero() {
+			run.Inconclusive("no request of a probe was seen on lo")
 			continue
 		}
 		gap := res.ExitWall.Sub(l)
